@@ -9,8 +9,8 @@ from ..classes import RULES
 from ..initflow import InitFlow
 from ..kinds import Lin
 from ..linform import Incomplete as _I  # noqa: F401
-from ..linform import InterpRaise, NonLinear, Opaque, SymObj
-from ..loader import AnalysisError, Incomplete, World, module_of
+from ..linform import InterpRaise, LossyCoefficient, NonLinear, Opaque, SymObj
+from ..loader import AnalysisError, Incomplete, World, enclosing, module_of, site
 from ..mutate import edit_def, replace_expr, replace_stmt
 from ..opkinds import all_mv
 from ..paths import Path, function_paths
@@ -116,6 +116,9 @@ def run(ctx, ck) -> None:
             P = pol.matrix(pol.make(pol.plr), kind, 'P')
             H = pol.matrix(pol.make(pol.hwp), kind, 'H')
             R = pol.matrix(pol.make(pol.rot, psi), kind, 'R')
+        except LossyCoefficient as exc:
+            ck.incomplete('Q2', acq_fn, f'the exact matrices are not defined for every data dtype: {exc}', instance=f'kind {L}')
+            continue
         except (NonLinear, InterpRaise) as exc:
             ck.bad('Q2', acq_fn, f'cannot derive the matrices on {L}: {exc}', instance=f'kind {L}')
             continue
@@ -212,8 +215,66 @@ def run(ctx, ck) -> None:
             ck.obs.append(o)
     ck.floor('Q7', sum(1 for o in ck.obs if o.rule.endswith('Q7')), 10, 'pixel-lookup obligations')
 
+    # ------------------------------------------------------------------ Q8 P^T P reduces to the hit-count diagonal (shared with C01.R-PTP)
+    from . import c01
+
+    sub = type(ck)(ck.pid)
+    c01._r_ptp(sub, world, table)
+    for o in sub.obs:
+        if o.rule.endswith('R-PTP'):
+            o.rule = f'{ck.pid}.Q8'
+            ck.obs.append(o)
+    ck.floor('Q8', sum(1 for o in ck.obs if o.rule.endswith('Q8')), 5, 'obligations of the P^T P rewrite')
+
+    # ------------------------------------------------------------------ Q9 the pointing container hands back the angles it was given
+    _plain_record(ck, world, table, 'furax.samplings.Sampling', ('theta', 'phi', 'pa'))
+
     # ------------------------------------------------------------------ Q6 structures across every @
     _q6(ck, world, table, proj_fn, acq_fn)
+
+
+def _plain_record(ck, world, table, qual: str, want: tuple[str, ...]) -> None:
+    """The class is a dataclass whose generated constructor stores every argument unchanged and whose attribute reads
+    are plain: no __init__/__post_init__/__setattr__/__getattr__/__getattribute__, no property or method shadowing a field,
+    no default.  (theta, phi, psi) enter the Euler rotation as given; psi is only 2 pi-periodic there.)"""
+    cls = table.find(qual)
+    if cls is None:
+        raise AnalysisError(f'anchor vanished: {qual}')
+    node = cls.node
+    decos = {world.qualify(cls.module, d.func if isinstance(d, ast.Call) else d) for d in node.decorator_list}
+    is_dc = bool(decos & {'dataclasses.dataclass', 'jax_dataclasses.pytree_dataclass', 'jax_dataclasses._dataclasses.pytree_dataclass'})
+    fields = [st.target.id for st in node.body if isinstance(st, ast.AnnAssign) and isinstance(st.target, ast.Name)]
+    defaults = [st.target.id for st in node.body if isinstance(st, ast.AnnAssign) and isinstance(st.target, ast.Name) and st.value is not None]
+    hooks = sorted(n for n in ('__init__', '__new__', '__setattr__', '__getattr__', '__getattribute__', '__setstate__') if any(n in k.own for k in cls.mro or [cls]))
+    shadows = sorted(n for n in fields if any(isinstance(k.own.get(n), ast.FunctionDef) for k in cls.mro or [cls]))
+    # a validating __post_init__ is fine; one that stores into a field is not (frozen dataclasses do it via object.__setattr__)
+    writers = []
+    for n in ast.walk(node):
+        if isinstance(n, ast.Call) and (
+            (isinstance(n.func, ast.Attribute) and n.func.attr == '__setattr__') or (isinstance(n.func, ast.Name) and n.func.id == 'setattr')
+        ) and len(n.args) >= 2 and not (isinstance(n.args[-2], ast.Constant) and n.args[-2].value not in want):
+            writers.append(site(n))
+        if isinstance(n, ast.Attribute) and isinstance(n.ctx, (ast.Store, ast.Del)) and n.attr in want:
+            writers.append(site(n))
+        if isinstance(n, ast.Attribute) and n.attr == '__dict__' and enclosing(n, (ast.FunctionDef,)) is not None:
+            writers.append(site(n))
+    good = is_dc and tuple(fields) == want and not defaults and not hooks and not shadows and not writers
+    why = []
+    if not is_dc:
+        why.append('it is no longer a dataclass')
+    if tuple(fields) != want:
+        why.append(f'its fields are {fields}, expected {list(want)} in this order (callers pass them positionally)')
+    if defaults:
+        why.append(f'fields {defaults} have defaults')
+    if hooks:
+        why.append(f'it defines {hooks}, which runs on construction or attribute access and can replace the stored angles')
+    if shadows:
+        why.append(f'{shadows} are shadowed by methods/properties')
+    if writers:
+        why.append(f'a method of the class stores into a field ({writers[0]})')
+    ck.expect('Q9', good, node, f'{cls.name} is a plain dataclass of {list(want)}: the generated constructor stores each argument unchanged and reads are plain attribute reads',
+              f'{cls.name} no longer hands back the angles it was given: ' + '; '.join(why) + ' (the projection uses psi as the third Euler angle, which is 2 pi-periodic, '
+              'and 2 psi for the polarisation rotation: any normalisation of the stored angles changes the pointing of off-axis detectors)', instance='sampling container')
 
 
 def _einsum_ok(subs: str) -> bool:
